@@ -188,8 +188,10 @@ def neutral_rule(repo, res, rule="NEUTRAL"):
     f = repo.fn("parse::end_of_statement")
     ok = False
     if f is not None:
-        t = "".join(repo.text(f.file, f.body).split())
-        ok = "alt((map(char(';'),|_|()),map(eof,|_|())))" in t
+        # structural: an alt that reaches both char(';') and eof, and the function's value type is () (nothing of the terminator is kept)
+        noms = {n["path"].split("::")[-1] for n in A.walk(f.body) if n["k"] == "Path"}
+        semis = [n for n in A.walk(f.body) if n["k"] == "Lit" and n.get("lit") == "char" and n["v"] == ";"]
+        ok = "alt" in noms and "eof" in noms and bool(semis) and "()" in "".join((f.node.get("ret") or "").split())
     res.check(ok, rule, f"{rule}:end-of-statement", "`;` and end of input both yield ()", f.loc() if f else "")
     for q in ("parse::call_variant", "parse::nonterm_def_statement"):
         f = repo.fn(q)
@@ -197,8 +199,26 @@ def neutral_rule(repo, res, rule="NEUTRAL"):
         res.check(ok, rule, f"{rule}:{q}:terminator", f"{q} ends with end_of_statement", f.loc() if f else "")
     # blanks(): whitespace, comments and form feed are one alternative each, value discarded
     f = repo.fn("parse::blanks")
-    ok = f is not None and "alt((multispace1,comment,form_feed))" in "".join(repo.text(f.file, f.body).split())
-    res.check(ok, rule, f"{rule}:blanks", "blanks = whitespace | # comment | form feed", f.loc() if f else "")
+    ok = False
+    if f is not None:
+        # structural: one `alt` whose alternatives reach a whitespace parser, a parser of '#' and a parser of the form feed character
+        by_name = {g.name: g for g in repo.fns_in("parse")}
+        seen_fns, work, lits, noms = set(), [f], set(), set()
+        while work:
+            g = work.pop()
+            if g.name in seen_fns:
+                continue
+            seen_fns.add(g.name)
+            for n in A.walk(g.body):
+                if n["k"] == "Path":
+                    c = n["path"].split("::")[-1]
+                    noms.add(c)
+                    if c in by_name:
+                        work.append(by_name[c])
+                if n["k"] == "Lit" and n.get("lit") == "char":
+                    lits.add(n["v"])
+        ok = "alt" in noms and ("multispace1" in noms or "multispace0" in noms) and "#" in lits and "\x0c" in lits
+    res.check(ok, rule, f"{rule}:blanks", "blanks = alt of whitespace | a parser of `#` | a parser of the form feed character", f.loc() if f else "")
 
 
 def blanks_rule(repo, res, rule="BLANKS"):
@@ -234,6 +254,34 @@ def blanks_rule(repo, res, rule="BLANKS"):
     for q, names in sorted(users.items()):
         res.check(q in skippers, rule, f"{rule}:{q}", f"uses nom's raw {sorted(names)}" + (" inside a blank/comment skipper" if q in skippers else ": a token-level parser skips plain whitespace only here -- comments and form feeds at this boundary are not skipped (layout changes the parse)"), repo.fns[q].loc())
     res.check(len(skippers) >= 1, rule, f"{rule}:skippers-found", f"skippers that may use the raw parsers: {sorted(skippers)}", "")
+    # inside the skippers: the combinators they are built from.  A comment may be empty (`#` at the end of a line), a form feed is one
+    # character, blank runs need at least one character to make progress: the zero-or-more / one-or-more choice of each is part of what
+    # "a comment" is.  The combinators used today were read one by one; a different one in a skipper is reported.
+    allowed = {"parse::comment": {"char", "take_till"}, "parse::form_feed": {"char"}, "parse::blanks": {"alt", "multispace1", "comment", "form_feed"},
+               "parse::multiblanks0": {"blanks"}, "parse::multiblanks1": {"blanks", "multiblanks0"}}
+    nomlike = {"char", "tag", "take_till", "take_till1", "take_while", "take_while1", "is_not", "is_a", "many0", "many1", "opt", "alt", "multispace0", "multispace1", "space0", "space1", "not_line_ending", "line_ending",
+               "anychar", "none_of", "one_of", "take", "take_until", "take_until1", "recognize", "preceded", "terminated", "delimited", "pair", "tuple", "eof", "fold_many0", "fold_many1", "satisfy", "newline", "tab", "crlf"} | set(by_name)
+    named = {k.split("::")[-1] for k in allowed}
+
+    def flat(f, seen=()):
+        """combinators a skipper is built from; local helpers that are not themselves named skippers are looked through"""
+        out = set()
+        for n in A.walk(f.body):
+            if n["k"] == "Path":
+                c = n["path"].split("::")[-1]
+                if c == f.name or c not in nomlike:
+                    continue
+                if c in by_name and c not in named and c not in seen:
+                    out |= flat(by_name[c], seen + (c,))
+                else:
+                    out.add(c)
+        return out
+
+    for q in sorted(k for k in allowed if k in repo.fns):
+        f = repo.fns[q]
+        used = flat(f)
+        extra = sorted(used - allowed.get(q, set()))
+        res.check(not extra, rule, f"{rule}:{q}:combinators", f"built from {sorted(used)}" + ("" if not extra else f": {extra} is not among the combinators read for this skipper ({sorted(allowed.get(q, set()))}) -- e.g. a one-or-more body makes the bare `#` of an empty comment a literal"), f.loc())
     # and the statement / expression parsers do call the skippers
     callers = 0
     for fn in repo.fns_in("parse"):
@@ -243,7 +291,113 @@ def blanks_rule(repo, res, rule="BLANKS"):
     res.check(callers >= 20, rule, f"{rule}:skipper-use-floor", f"{callers} uses of multiblanks0/multiblanks1 in parse.rs (floor 20)", "")
 
 
+SKIPPER_FNS = {"multiblanks0", "multiblanks1"}
+WRAP_FIRST = {"preceded", "pair", "tuple", "delimited", "terminated", "map", "opt", "many0", "many1", "recognize", "cut", "context", "fold_many0"}
+
+
+def _parser_expr(e):
+    while e is not None and e["k"] in ("Try", "Ref", "Unary", "Paren"):
+        e = e["expr"]
+    if e is not None and e["k"] == "MethodCall" and e["method"] == "parse":
+        return _parser_expr(e["recv"])
+    return e
+
+
+def _callee(e):
+    if e is None:
+        return None
+    if e["k"] == "Call":
+        f = e["func"]
+        if f["k"] == "Path":
+            return f["path"].split("::")[-1]
+        if f["k"] == "Call":
+            return _callee(f)
+    if e["k"] == "Path":
+        return e["path"].split("::")[-1]
+    return None
+
+
+def starts_with_skipper(repo, e, depth=0):
+    """does parser expression e skip blanks/comments before consuming its first token, on every alternative?"""
+    e = _parser_expr(e)
+    if e is None or depth > 6:
+        return False
+    name = _callee(e)
+    if name in SKIPPER_FNS:
+        return True
+    if e["k"] == "Call" and name == "alt" and e["args"]:
+        alts = e["args"][0]["elems"] if e["args"][0]["k"] == "Tuple" else e["args"]
+        return bool(alts) and all(starts_with_skipper(repo, a, depth + 1) for a in alts)
+    if e["k"] == "Call" and name in WRAP_FIRST and e["args"]:
+        first = e["args"][0]
+        if first["k"] == "Tuple" and first["elems"]:
+            first = first["elems"][0]
+        return starts_with_skipper(repo, first, depth + 1)
+    if e["k"] == "Closure":
+        return starts_with_skipper(repo, e["body"], depth + 1)
+    if e["k"] == "Block":
+        for st in e["stmts"]:
+            if st["k"] == "Local" and st.get("init") is not None and _is_parser_call(repo, st["init"]):
+                return starts_with_skipper(repo, st["init"], depth + 1)
+            if st["k"] == "ExprStmt":
+                return starts_with_skipper(repo, st["expr"], depth + 1)
+        return False
+    # a local parser function: its first parser statement
+    cands = [f for f in repo.fns_in("parse") if f.name == name]
+    if len(cands) == 1 and (e["k"] == "Call" or e["k"] == "Path"):
+        for st in cands[0].body["stmts"]:
+            if st["k"] == "Local" and st.get("init") is not None and _is_parser_call(repo, st["init"]):
+                return starts_with_skipper(repo, st["init"], depth + 1)
+            if st["k"] == "ExprStmt" and not st["semi"]:
+                return starts_with_skipper(repo, st["expr"], depth + 1)
+    return False
+
+
+NOM = {"char", "tag", "alt", "opt", "map", "preceded", "terminated", "delimited", "many0", "many1", "pair", "tuple", "eof", "take_till", "take_while1", "is_not", "recognize", "fold_many0", "one_of", "none_of"}
+
+
+def _is_parser_call(repo, init):
+    e = _parser_expr(init)
+    name = _callee(e)
+    if name is None:
+        return False
+    if name in NOM or name in SKIPPER_FNS:
+        return True
+    fs = [f for f in repo.fns_in("parse") if f.name == name]
+    return len(fs) == 1 and "IResult" in (fs[0].node.get("ret") or "")
+
+
+def seqskip_rule(repo, res, rule="SEQSKIP"):
+    """`Whitespace, newlines, form feeds and # comments between tokens never change` what is parsed: in every parser function written as
+    a sequence of `let (input, x) = <parser>(input)?;` steps that skips blanks at all, any two consecutive token-consuming steps are
+    separated by a skipper (multiblanks0/1), or the second step itself starts with a skipper on every one of its alternatives.
+    A boundary without one accepts `a;` and rejects `a ;` / `a # note\n;`, or accepts a file and rejects it with a final newline."""
+    n = 0
+    for fn in sorted(repo.fns_in("parse"), key=lambda f: f.node["l"]):
+        steps = []
+        for st in fn.body["stmts"]:
+            if st["k"] == "Local" and st.get("init") is not None and _is_parser_call(repo, st["init"]):
+                steps.append(st)
+        names = [_callee(_parser_expr(s["init"])) for s in steps]
+        if not any(x in SKIPPER_FNS for x in names) or fn.name in SKIPPER_FNS or fn.name == "blanks":
+            continue
+        prev_token = None
+        for s, nm in zip(steps, names):
+            if nm in SKIPPER_FNS:
+                prev_token = None
+                continue
+            if prev_token is not None:
+                n += 1
+                ok = starts_with_skipper(repo, s["init"])
+                res.check(ok, rule, f"{rule}:parse::{fn.name}:{prev_token}->{nm}", f"`{nm}` follows `{prev_token}` " + ("and skips blanks itself before its first token" if ok else "with no blank/comment skipper between them (and does not start with one on every alternative): layout at this boundary changes whether the file parses"), f"{fn.file}:{s['l']}")
+            prev_token = nm
+        n += 1
+        res.ok(rule, f"{rule}:parse::{fn.name}:sequence", f"steps {names}", fn.loc())
+    res.floor(rule, n, 8)
+
+
 def run(repo, res, tier):
+    seqskip_rule(repo, res)
     blanks_rule(repo, res)
     from . import common, c02
     # statement order: the dependency graph sees every reference (also inside `||`), and expansion is post-order over it, so every
